@@ -3,4 +3,10 @@
 
 int asn1c_emit_constraint_checking_code(arg_t *arg);
 
+/*
+ * -fno-constraints: emit only the permitted alphabet tables which
+ * the PER character maps of the type are made of.
+ */
+int asn1c_emit_PER_character_map_tables(arg_t *arg);
+
 #endif	/* ASN1C_CONSTRAINT_H */
